@@ -426,20 +426,14 @@ impl<'a> From<Piece<'a>> for Chunk {
                     }
 
                     let timezone = match formatter.args.get(1) {
-                        Some(arg) => {
-                            if let Some(arg) = arg.first() {
-                                match *arg {
-                                    Piece::Text("utc") => Timezone::Utc,
-                                    Piece::Text("local") => Timezone::Local,
-                                    Piece::Text(z) => {
-                                        return Chunk::Error(format!("invalid timezone `{}`", z));
-                                    }
-                                    _ => return Chunk::Error("invalid timezone".to_owned()),
-                                }
-                            } else {
-                                return Chunk::Error("invalid timezone".to_owned());
+                        Some(arg) => match literal_arg(arg, "invalid timezone") {
+                            Ok(z) if z == "utc" => Timezone::Utc,
+                            Ok(z) if z == "local" => Timezone::Local,
+                            Ok(z) => {
+                                return Chunk::Error(format!("invalid timezone `{}`", z));
                             }
-                        }
+                            Err(_) => return Chunk::Error("invalid timezone".to_owned()),
+                        },
                         None => Timezone::Local,
                     };
 
